@@ -21,22 +21,21 @@ if [ $applies = yes ]; then
   ( cd $WT && git apply -R $S/patch.diff )
   ( cd $WT && go test -vet=off -count=1 -timeout 600s -run "TestDemo$prop" ./$dir/ ) >/tmp/confirm-$id.without 2>&1 && without=PASS || without=FAIL
 fi
-git -C /repo worktree remove --force $WT
-# our check against the change
+# our check against the change: run on the scratch worktree (VERIF_REPO), /repo itself is not touched
 detected=unknown; viol=""
-if [ $applies = yes ] && grep -q "\"$prop\"" /verif/MANIFEST.json && python3 - "$prop" <<'PY'
+if [ $applies = yes ] && python3 - "$prop" <<'PY'
 import json,sys
 m=json.load(open('/verif/MANIFEST.json'))
 sys.exit(0 if any(c['property_id']==sys.argv[1] for c in m['checks']) else 1)
 PY
 then
-  ( cd /repo && git apply $S/patch.diff )
-  out=$(cd /verif && ./bin/govc check $prop --tier quick --no-evidence 2>&1)
-  ( cd /repo && git checkout -- . )
+  ( cd $WT && git apply $S/patch.diff && rm -f $dir/zz_demo_test.go )
+  out=$(cd /verif && VERIF_REPO=$WT ./bin/govc check $prop --tier quick --no-evidence 2>&1)
   if echo "$out" | grep -q "^VIOLATION"; then detected=yes; viol=$(echo "$out" | grep "^VIOLATION" | sed 's/.*obligation=//' | head -5 | tr '\n' ';'); else detected=no; fi
 else
   detected=property-not-claimed
 fi
+git -C /repo worktree remove --force $WT
 python3 - "$id" "$prop" "$dir" "$applies" "$build" "$withp" "$without" "$detected" "$viol" <<'PY'
 import json,sys,subprocess
 id,prop,d,applies,build,withp,without,detected,viol=sys.argv[1:10]
